@@ -98,7 +98,8 @@ def np_dtype(name, mode):
     if name in ('bool_', 'bool8', 'bool'):
         return DT('bool', 'bool')
     if name in ('complex64', 'complex128'):
-        return DT('complex', name)
+        # value abstraction: complex numbers are an uninterpreted real-sorted value (only indices / footprints are checked)
+        return DT('real', name)
     if name in NP_INT:
         b, s = NP_INT[name]
         if mode == 'bv':
@@ -572,6 +573,9 @@ class Engine:
         return m(n, st)
 
     def ev_Constant(self, n, st):
+        if isinstance(n.value, complex):
+            self.note_assumed('complex values are abstracted to uninterpreted reals (safety contracts only)')
+            return SV(fresh('cplx', z3.RealSort()), 'real')
         return n.value
 
     def ev_Name(self, n, st):
@@ -1070,6 +1074,8 @@ class Engine:
                 else:
                     iv = self.ev(e, st)
                     if isinstance(iv, Arr):
+                        if len(elts) == 1 and arr.ndim == 1 and iv.ndim == 1 and iv.ety == 'int':
+                            return self.fancy_index(st, arr, iv, node)
                         raise Unsupported('fancy indexing ' + norm_src(node))
                     w = self.wrap_index(st, arr, a[2], iv, node)
                     scalar.append(w)
@@ -1080,6 +1086,22 @@ class Engine:
         if not partial:
             return scalar
         return Arr(arr.base, newaxes, arr.ety, arr.dt, arr.readonly)
+
+    def fancy_index(self, st, arr, idx, node):
+        """a[idx] with a 1-D integer index array: every index must be in bounds (after numba's single wrap); the result is a
+        fresh array with result[q] == a[wrap(idx[q])]"""
+        q = fresh('fq', z3.IntSort())
+        L = arr.shape[0]
+        iv = self.sel(st, idx, [q])
+        w = z3.If(iv < 0, iv + L, iv)
+        if not self.specmode:
+            sub = St(st.env, st.heap, list(st.pc))
+            sub.pc.append(z3.And(q >= 0, q < idx.shape[0]))
+            self.oblige(sub, 'bounds', z3.And(w >= 0, w < L), node, label='every index of ' + norm_src(node))
+            st.pc.append(z3.ForAll([q], z3.Implies(z3.And(q >= 0, q < idx.shape[0]), z3.And(w >= 0, w < L))))
+        new = self.new_array(st, 'gather', [idx.shape[0]], arr.ety, arr.dt)
+        st.pc.append(z3.ForAll([q], z3.Select(st.heap[new.base], q) == self.sel(st, arr, [w]), patterns=[z3.Select(st.heap[new.base], q)]))
+        return [new] if False else new
 
     # ---------------- calls
     def ev_Call(self, n, st):
